@@ -15,8 +15,12 @@ use crate::rng::{fp, fp_mix};
 use crate::run::*;
 use crate::spec;
 
+thread_local! {
+    static CUR_PLAIN: std::cell::RefCell<Vec<u8>> = const { std::cell::RefCell::new(Vec::new()) };
+}
 fn rp(a: &CrcAlgo, shape: &Shape, input: &[u8]) -> Vec<(String, String)> {
-    vec![kv("kind", "c10"), kv("algorithm", a.name), kv("shape", shape.text()), kv("input", hex(input))]
+    let plain = CUR_PLAIN.with(|p| p.borrow().clone());
+    vec![kv("kind", "c10"), kv("algorithm", a.name), kv("shape", shape.text()), kv("input", hex(input)), kv("value_spec_bytes", hex(&plain))]
 }
 
 /// Decode `input`; if accepted, check the soundness invariant.  Returns Some(consumed) on accept.
@@ -104,6 +108,7 @@ fn flip_bit(buf: &mut [u8], k: usize, refin: bool) {
 fn one_frame(t: &mut Tctx, ai: usize, algos: &[CrcAlgo], shape: &Shape, val: &Val, exhaustive_bursts: bool) {
     let a = &algos[ai];
     let plain = spec::encode(val);
+    CUR_PLAIN.with(|p| *p.borrow_mut() = plain.clone());
     let sfp = fp_mix(fp(shape.text().as_bytes()), fp(a.name.as_bytes()));
     t.st.nontrivial(fp_mix(sfp, fp(&plain)));
     t.st.count(&format!("frames_{}bit", a.bytes * 8));
@@ -137,6 +142,22 @@ fn one_frame(t: &mut Tctx, ai: usize, algos: &[CrcAlgo], shape: &Shape, val: &Va
         _ => {
             t.st.violation("C10:slice-storage-differs", format!("{} to_slice differs", a.name), rpv(&plain));
             return;
+        }
+    }
+    // a slice that holds the payload but not the whole checksum must be refused, not truncated
+    for c in plain.len()..want.len() {
+        let mut small = vec![0u8; c];
+        t.st.count("slice_capacity_inside_checksum");
+        match catch(|| (a.to_slice)(val, &mut small)) {
+            Ok(Err(postcard::Error::SerializeBufferFull)) => {}
+            other => {
+                t.st.violation(
+                    "C10:truncated-checksum-emitted",
+                    format!("{}: to_slice into {} bytes (frame is {} bytes) gave {:?} instead of SerializeBufferFull", a.name, c, want.len(), other.map(|r| r.map(|x| x.1).map_err(|e| err_label(&e)))),
+                    rpv(&plain),
+                );
+                return;
+            }
         }
     }
     if want.len() <= 64 {
@@ -326,8 +347,9 @@ pub fn run(cfg: &Cfg) -> Report {
             let input = unhex(m.get("input").map(|s| s.as_str()).unwrap_or("")).unwrap_or_default();
             // the replay input is either a corrupted frame (soundness) or a plain encoding (re-run the frame)
             decode_and_check(t, &algos[ai], &shape, &input);
-            if let Ok(d) = spec::decode(&shape, &input) {
-                if d.consumed == input.len() {
+            let vb = unhex(m.get("value_spec_bytes").map(|s| s.as_str()).unwrap_or("")).unwrap_or_default();
+            if let Ok(d) = spec::decode(&shape, &vb) {
+                if d.consumed == vb.len() {
                     one_frame(t, ai, &algos, &shape, &d.val, false);
                 }
             }
